@@ -1995,9 +1995,11 @@ class RecordTensor(ShapedTensor):
             # write to storage
             if inplace:
                 with torch.no_grad():
-                    data.scatter_(0, indices, obs)
+                    data.scatter_(0, indices, obs.to(dtype=data.dtype))
             else:
-                self.__data = torch.scatter(data, 0, indices, obs)
+                self.__data = torch.scatter(
+                    data, 0, indices, obs.to(dtype=data.dtype)
+                )
 
     def select(
         self,
